@@ -408,6 +408,32 @@ def check_transitions(p, r):
                                        f'items {"stop instead of closing up" if acc else "close up instead of stopping"}')
             except ValueError as e_:
                 why = f'the state dispatch tests `{e_}`, which is not a combination of is_empty() / is_stalled()'
+        # every decision on the accumulating flag inside behaviour picks the matching stall state (there may be several such sites)
+        if not why:
+            for n_ in walk_no_nested(b.node):
+                if not isinstance(n_, ast.If):
+                    continue
+                t_ = ast.unparse(n_.test).replace(' ', '')
+                pol = None
+                if t_ in ('self.accumulating', 'self.accumulating==1', 'self.accumulating==True', 'self.accumulating!=0'):
+                    pol = True
+                elif t_ in ('notself.accumulating', 'self.accumulating==0', 'self.accumulating==False', 'self.accumulating!=1'):
+                    pol = False
+                if pol is None:
+                    continue
+                for branch, acc in ((n_.body, pol), (n_.orelse, not pol)):
+                    got = set()
+                    for x in branch:
+                        if isinstance(x, ast.If):
+                            continue
+                        for c_ in ast.walk(x):
+                            if isinstance(c_, ast.Call) and ast.unparse(c_.func) == 'self.set_conveyor_state':
+                                got |= names_in(c_)
+                    got &= STALLED
+                    wst = {'STALLED_ACCUMULATING_STATE'} if acc else {'STALLED_NONACCUMULATING_STATE'}
+                    if got and got != wst:
+                        why = (f'a stalled {"accumulating" if acc else "non-accumulating"} belt is put into {sorted(got)} (line {n_.lineno}), expected {sorted(wst)}: '
+                               f'items {"stop instead of closing up" if acc else "close up instead of stopping"}')
         (r.ok if not why else r.fail)('C13.R3', key3, 'empty → IDLE, moving → MOVING, stalled → STALLED_(NON)ACCUMULATING' if not why else why, src(b.module), b.node.lineno)
 
 
